@@ -472,6 +472,8 @@ class ClassInterp(object):
                 c = self.truth(self.ev(st.test, env))
                 self.block(st.body if c else st.orelse, env)
                 continue
+            if isinstance(st, ast.Pass):
+                continue
             if isinstance(st, ast.Raise):
                 raise Raised(norm(st.exc, 40) if st.exc is not None else 're-raise')
             raise Unsupported('statement %s' % norm(st, 60))
